@@ -218,7 +218,7 @@ pub trait DateRoll {
         Self: Sized,
     {
         let new_date = if days < 0 {
-            *date - Days::new(u64::try_from(-days).unwrap())
+            *date - Days::new(u64::from(days.unsigned_abs()))
         } else {
             *date + Days::new(u64::try_from(days).unwrap())
         };
